@@ -590,7 +590,7 @@ def gen(seed, tier):
     yield from _small_buffet(tier)
     yield from _small_cache(tier)
     rng = random.Random(seed)
-    nrand = 2500 if tier == "quick" else 60000
+    nrand = 2500 if tier == "quick" else 40000
     for i in range(nrand):
         r = i % 10
         if r < 4:
